@@ -120,6 +120,28 @@ func main() {
 			fmt.Fprintln(os.Stderr, err)
 			os.Exit(2)
 		}
+	case "trace-distributor":
+		st, err := distributor.RunTrace(*edges, *walks, *seed)
+		if err != nil {
+			fmt.Fprintln(os.Stderr, "trace-distributor:", err)
+			os.Exit(2)
+		}
+		b, _ := json.MarshalIndent(st, "", " ")
+		if err := os.WriteFile(*out, b, 0o644); err != nil {
+			fmt.Fprintln(os.Stderr, err)
+			os.Exit(2)
+		}
+	case "trace-minter":
+		st, err := minter.RunTrace(*edges, *walks, *seed)
+		if err != nil {
+			fmt.Fprintln(os.Stderr, "trace-minter:", err)
+			os.Exit(2)
+		}
+		b, _ := json.MarshalIndent(st, "", " ")
+		if err := os.WriteFile(*out, b, 0o644); err != nil {
+			fmt.Fprintln(os.Stderr, err)
+			os.Exit(2)
+		}
 	default:
 		fmt.Fprintln(os.Stderr, "unknown command", cmd)
 		os.Exit(2)
